@@ -59,8 +59,8 @@ def run(ctx):
     jobs = []
     offsets_total = 0
     for p, pr in zip(progs, probe):
-        if "harness_error" in pr:
-            ctx.machinery(pr["harness_error"][-1200:])
+        if "harness_error" in pr or "harness_hang" in pr:
+            ctx.machinery(pr.get("harness_error", "probe run hung")[-1200:])
         L = pr["wi_bytes"]
         bounds = set(pr["wi_frames"])
         offsets = list(range(0, L + 1))
